@@ -178,10 +178,34 @@ Fixpoint nat_list_eqb (a b : list nat) : bool :=
 (** A recorded execution of the real flow buffer with 2^k tokens in which [np] commands were put,
     written and completed. *)
 Inductive case :=
-| FlowTrace (k : nat) (ts : list tstep) (np : nat).
+| FlowTrace (k : nat) (ts : list tstep) (np : nat)
+| FlowEnc (k : nat) (ds : list N) (np : nat).
+
+(** compact encoding, one number per step: kind (4 bits), p (12), token+1 or 0 (6), item+1 or 0 (13) *)
+Definition dec_label (kind p : nat) : label :=
+  match kind with
+  | 0 => FTake | 1 => FPutW p | 2 => FWTake | 3 => FPutR | 4 => FRTake | 5 => FDeliver p | _ => FPutF
+  end.
+
+Definition dec_opt (x : N) : option nat := if N.eqb x 0 then None else Some (N.to_nat (x - 1)).
+
+Definition dec_step (x : N) : tstep :=
+  {| t_label := dec_label (N.to_nat (x mod 16)) (N.to_nat ((x / 16) mod 4096));
+     t_tok := dec_opt ((x / 65536) mod 64);
+     t_item := dec_opt ((x / 4194304) mod 8192) |}.
+
+Definition dec_steps (ds : list N) : list tstep := map dec_step ds.
 
 Definition check_case (c : case) : bool :=
   match c with
+  | FlowEnc k ds np =>
+      match replay (2 ^ k) (dec_steps ds) (init (2 ^ k)) with
+      | Some st =>
+          Nat.eqb (length (f st)) (2 ^ k) && Nat.eqb (nt st) np && Nat.eqb (length (wseq st)) np &&
+          nat_list_eqb (rseq st) (wseq st) && Nat.eqb (length (recv st)) np && own_results (recv st) &&
+          match wt st with [] => true | _ => false end
+      | None => false
+      end
   | FlowTrace k ts np =>
       match replay (2 ^ k) ts (init (2 ^ k)) with
       | Some st =>
